@@ -156,12 +156,16 @@ def make_data(wrapped, extra=None):
         def __bool__(self):
             raise ArithmeticError("bool")
 
+    class BadStr:
+        def __str__(self):
+            raise ValueError("str")
+
     class BadIter:
         def __iter__(self):
             raise LookupError("iter")
 
     d = {"badlen_ni": badlen(NotImplementedError), "badlen_ov": badlen(OverflowError), "badlen_neg": badlen(ValueError),
-         "badbool": BadBool(), "baditer": BadIter(), "gis": GetItemSeq([5, 0, 7]), "plaingen": plaingen, "legacy": legacy, "fls": [0.1] * 10, "flrecs": [{"v": 0.1}] * 10, "tup": (4, 5, 6), "pairs": [(1, "a"), (2, "b")], "dct": {"b": 2, "a": 1}, "mku": Markup("<b>m</b>"), "flt": 2.5, "tru": True,
+         "badbool": BadBool(), "badstr": BadStr(), "baditer": BadIter(), "gis": GetItemSeq([5, 0, 7]), "plaingen": plaingen, "legacy": legacy, "fls": [0.1] * 10, "flrecs": [{"v": 0.1}] * 10, "tup": (4, 5, 6), "pairs": [(1, "a"), (2, "b")], "dct": {"b": 2, "a": 1}, "mku": Markup("<b>m</b>"), "flt": 2.5, "tru": True,
          "geni": geni, "stop": stop, "seq": [3, 1, 2, 3], "recs": [{"n": 1, "a": "x"}, {"n": 2, "a": "y"}, {"n": 1, "a": "z"}], "empty": [],
          "words": ["b", "a"], "fn": fn, "mk": mk, "n": 5, "s": "str",
          "recs2": [{"n": 1, "a": "x"}, {"a": "Y"}, {"n": 1}, {"a": "y", "n": 2}]}
@@ -289,6 +293,10 @@ PROBES = [
 # from the list, async raises - one recorded finding per consumer; (template, signature)
 # oracle regression templates: every environment class x autoescape off / on
 ORACLE_FIXED = [
+    # two independent faults in one template, one raised when a printed value is turned into text, the other while an
+    # expression is evaluated, in both orders: every mode must report the same (first) one
+    "{{ badstr }}|{{ baditer|list }}{{ baditer|first }}", "{{ baditer|first }}|{{ badstr }}", "{{ fn(1) }}{{ badstr }}{% for x in baditer %}{{ x }}{% endfor %}",
+    "{% for x in seq %}{{ loop.previtem.zz }}{% endfor %}|{{ baditer|list }}",
     # inheritance: super() / self.block() used in Markup-sensitive ways, under block-level autoescape changes
     "{% extends 'pbase.html' %}{% block b %}{% autoescape false %}{{ super() ~ '<c>' }}{{ self.c() ~ '<d>' }}{% endautoescape %}"
     "{% autoescape true %}{{ super() ~ '<e>' }}{{ self.c()|e }}{{ '{}<f>'.format(super()) }}{% endautoescape %}{{ super() ~ '<g>' }}{{ super()|urlize }}{% endblock %}"
@@ -653,7 +661,7 @@ def oracle(ctx, jinja2, loop):
                 sig = "StopIteration from a coroutine callable" if ("stop()" in ts["main.html"] and wrapped and out == "exc:RuntimeError") else \
                     "len() of the loop object in async mode" if ("loop|length" in ts["main.html"] and out == "exc:TypeError") else \
                     "sum with str start" if ("sum(start=''" in ts["main.html"] and expect == "exc:TypeError") else \
-                    f"async generator fed to {cons}" if (cons and out.startswith("exc:")) else \
+                    f"async generator fed to {cons}" if (cons and expect.startswith("ok:") and out in ("exc:TypeError", "exc:FilterArgumentError")) else \
                     f"async differs: {cname} {entry}{' wrapped data' if wrapped else ''}"
                 ctx.reject({"templates": ts, "env": cname, "undefined": uname, "autoescape": AUTOESCAPE[0] if isinstance(AUTOESCAPE[0], bool) else "selector", "entry": entry, "mode": mode, "wrapped": wrapped, "expected": expect[:300],
                             "got": out[:300], "tgen_data": repr(extra) if extra else None},
